@@ -39,9 +39,68 @@ def f_drop_rs(E, node):
     return _opq(G.DROP_RS(_opts_term(E, v)))
 
 
+@form('flat')
+def f_flat(E, node):
+    a = E.eval(node.args[0])
+    return G.grid_flatten(E, a, node)
+
+
+@form('epoch_of')
+def f_epoch_of(E, node):
+    df, L, e = [E.eval(a) for a in node.args]
+    from vf.lib import term_int
+    return _opq(G.EPOCH_FN(df.t, term_int(L), term_int(e)))
+
+
+def _relabel_term(E, df_t, o_t):
+    G.drop_fn('return_samples'), G.drop_fn('center_extrema'), G.drop_fn('burst_method'), G.drop_fn('threshold_kwargs')
+    from vf.values import str_code
+    bm = G.getstr_fn('burst_method', repr('cycles'))(o_t)
+    th = G.get_fn('threshold_kwargs', 'emptydict')(o_t)
+    G.get_fn('center_extrema', repr(None))
+    G.option_axioms(E)
+    return z3.If(bm == str_code('cycles'), G.DBC_FN(df_t, th), z3.If(bm == str_code('amp'), G.DBA_FN(df_t, th), df_t))
+
+
+@form('relabel')
+def f_relabel(E, node):
+    """relabel(table, options): the table re-labelled by the burst detector the option set names (default 'cycles'),
+    with the option set's own thresholds (default none); unchanged for any other method name"""
+    df, o = [E.eval(a) for a in node.args]
+    return _opq(_relabel_term(E, df.t, _opts_term(E, o)))
+
+
+@form('drop_opt')
+def f_drop_opt(E, node):
+    k = E.eval(node.args[0])
+    v = E.eval(node.args[1])
+    return _opq(G.drop_fn(k)(_opts_term(E, v)))
+
+
 @form('no_opts')
 def f_no_opts(E, node):
     return _opq(EMPTY_KW)
+
+
+def _explicit_keyword(E, qual, k, v, opts_t):
+    """f(k=v, **opts): the option set that f effectively receives.  Passing f's own default for k is the same as not
+    passing k; passing o.get(k, d) next to o-without-k is the same as passing o when d is f's own default for k (python
+    call semantics; the default is read from the callee's real signature in /repo)."""
+    import ast as _ast
+    mi, fdef = E.sources.func(qual)
+    d = E._default_of(fdef, k)
+    if not isinstance(d, _ast.Constant):
+        raise Unsupported('explicit keyword %s: callee default is not a literal' % k)
+    if isinstance(v, (str, int, float, bool)) or v is None:
+        if v == d.value and type(v) is type(d.value):
+            return opts_t
+        raise Unsupported('explicit keyword %s=%r differs from the default' % (k, v))
+    getd = getattr(v, 'getd', None)
+    if getd is not None and getd[0] == k and getd[1] == repr(d.value):
+        base = getd[2]
+        if z3.simplify(opts_t).eq(z3.simplify(G.drop_fn(k)(base))):
+            return base
+    raise Unsupported('explicit keyword %s with a value the option algebra cannot place' % k)
 
 
 # abstract (group-level) view of compute_features: used when the signal is an opaque row
@@ -52,10 +111,10 @@ def _cf_abstract(E, ca, node):
     rs = ca.kw.get('return_samples', True)
     if not isinstance(sig, Opaque):
         raise Unsupported('abstract compute_features on a non-opaque signal')
-    extra = [k for k in ca.kw if k not in ('fs', 'f_range', 'return_samples')]
-    if extra:
-        raise Unsupported('abstract compute_features with explicit keywords %s' % extra)
-    r = _cf(E, sig, fs, fr, rs, kwargs_term(E, ca))
+    opts_t = kwargs_term(E, ca)
+    for k in [k for k in ca.kw if k not in ('fs', 'f_range', 'return_samples')]:
+        opts_t = _explicit_keyword(E, 'bycycle.features.features.compute_features', k, ca.kw[k], opts_t)
+    r = _cf(E, sig, fs, fr, rs, opts_t)
     E.st.calls.append(('bycycle.features.features.compute_features', {'sig': sig}, r))
     return r
 
@@ -114,6 +173,36 @@ def _cf2d_cases():
                 "len(kwargs) == len(%s)" % KW,
                 "forall(i, 0 <= i < k, kwargs[i] == drop_rs(%s[i]))" % KW,
                 "forall(i, k <= i < len(kwargs), kwargs[i] == %s[i])" % KW])} if kl == 'list' else {}))
+    # ---- axis=None (C13): one analysis of the concatenated rows, cut into one table per row by epoch_df
+    T = "sigs.shape[1]"
+    for kl, kt, opts in (('None', 'none', 'no_opts()'), ('dict', 'optdict', 'drop_rs(%s)' % KW),
+                         ('list', ('grid', 1, False, 'list'), 'drop_rs(%s[0])' % KW)):
+        valid = "True" if kl != 'list' else "len(%s) == len(sigs)" % KW
+        flat_table = "CF(flat(sigs), fs, f_range, True, %s)" % opts
+        if kl != 'list':
+            entry = "epoch_of(%s, %s, e)" % (flat_table, T)
+            loops = {}
+        else:
+            # a per-epoch option list: every epoch is re-labelled with its own method and thresholds
+            entry = "relabel(epoch_of(%s, %s, e), %s[e])" % (flat_table, T, KW)
+            loops = {1: dict(index='k', mutates=['kwargs'], elementwise=True, invariant=[
+                         "len(kwargs) == len(%s)" % KW,
+                         "forall(i, 0 <= i < k, kwargs[i] == drop_rs(%s[i]))" % KW,
+                         "forall(i, k <= i < len(kwargs), kwargs[i] == %s[i])" % KW]),
+                     2: dict(index='k', mutates=['kwargs', 'dfs_features'], elementwise=True, invariant=[
+                         "len(kwargs) == len(%s) and len(dfs_features) == len(sigs)" % KW,
+                         "forall(i, 0 <= i < k, dfs_features[i] == relabel(epoch_of(%s, %s, i), %s[i]))" % (flat_table, T, KW),
+                         "forall(i, k <= i < len(sigs), dfs_features[i] == epoch_of(%s, %s, i))" % (flat_table, T),
+                         "forall(i, k <= i < len(kwargs) and i >= 1, kwargs[i] == drop_rs(%s[i]))" % KW,
+                         "implies(k == 0, kwargs[0] == drop_opt('center_extrema', drop_rs(%s[0])))" % KW])}
+        out.append(dict(
+            label='axis=None,kw=%s' % kl,
+            params=dict(common, **{KW: kt, 'axis': ('const', None)}),
+            requires=["n_jobs >= 1 or n_jobs == -1", "%s >= 1" % T] + (["len(%s) >= 2" % KW] if kl == 'list' else []),
+            raises={'ValueError': "not (%s)" % valid},
+            ensures=["len(result) == len(sigs)",
+                     "forall(e, 0 <= e < len(result), result[e] == %s)" % entry],
+            loops=loops))
     # C19: any other axis value is rejected
     for al, at in (('1', ('const', 1)), ('(0,1)', ('const', (0, 1))), ('other', INT)):
         out.append(dict(label='axis=%s,kw=dict' % al, params=dict(common, **{KW: 'optdict', 'axis': at}),
@@ -123,6 +212,67 @@ def _cf2d_cases():
 
 
 contract('bycycle.group.features.compute_features_2d', cases=_cf2d_cases(), modifies=[], result=_res_list)
+
+
+# ------------------------------------------------------------------------------------------------ _proxy_3d
+def _epoched_entry(E, rows, fs, f_range, opts_t):
+    """closure e -> entry e of the epoched analysis of a 2-D stack of rows with one option set (what the axis=None
+    contract of compute_features_2d states for kw = None / dict)"""
+    flat = G.grid_flatten(E, rows, None)
+    T = rows.shape[1]
+    Tt = T if not isinstance(T, int) else z3.IntVal(T)
+    table = _cf(E, flat, fs, f_range, True, opts_t).t
+    return lambda e: _opq(G.EPOCH_FN(table, Tt, e))
+
+
+def _opts_of_element(E, kw):
+    if kw is None:
+        return EMPTY_KW
+    if isinstance(kw, SDict):
+        return _opts_term(E, kw)
+    if isinstance(kw, Opaque):
+        # an option set that is None stands for "no options"; otherwise return_samples is dropped by the 2-D function
+        return z3.If(kw.t == G.NONE_OPTS, EMPTY_KW, G.DROP_RS(kw.t))
+    raise Unsupported('option element %r' % (kw,))
+
+
+def _proxy3d_abstract(E, ca, node):
+    args = ca.pos[0]
+    if not (isinstance(args, tuple) and len(args) == 2 and G.is_grid(args[0]) and args[0].lead == 1 and len(args[0].shape) == 2):
+        raise Unsupported('_proxy_3d argument %r' % (args,))
+    rows, kw = args
+    entry = _epoched_entry(E, rows, ca.kw.get('fs'), ca.kw.get('f_range'), _opts_of_element(E, kw))
+    return G.grid(E, (rows.shape[0],), 1, entry, 'list')
+
+
+@form('epoched')
+def f_epoched(E, node):
+    """epoched(rows, fs, f_range, options, e): table e of the epoched (axis=None) analysis of the 2-D stack `rows` with
+    one option set = epoch_of(CF(flat(rows), fs, f_range, True, drop_rs(options)), rows.shape[1], e)"""
+    rows, fs, f_range, opts, e = [E.eval(a) for a in node.args]
+    from vf.lib import term_int
+    return _epoched_entry(E, rows, fs, f_range, _opts_of_element(E, opts))(term_int(e))
+
+
+def _p3_result(E, env):
+    rows = env['args'][0]
+    fn = z3.Function(fresh_name('p3.at'), z3.IntSort(), ValSort)
+    return G.grid(E, (rows.shape[0],), 1, (lambda i: _opq(fn(i))), 'list')
+
+
+contract(
+    'bycycle.group.features._proxy_3d',
+    cases=[dict(label='kw=%s' % kl,
+                params={'args': ('tuple', [('grid', 1, True), kt]), 'fs': REAL, 'f_range': ('tuple', [REAL, REAL]),
+                        'return_samples': BOOL},
+                requires=["args[0].shape[1] >= 1"],
+                ensures=["len(result) == len(args[0])",
+                         "forall(e, 0 <= e < len(result), result[e] == epoched(args[0], fs, f_range, args[1], e))"])
+           for kl, kt in (('None', 'none'), ('dict', 'optdict'))],
+    modifies=[],
+    abstract=_proxy3d_abstract,
+    result=_p3_result,
+)
 
 
 # ------------------------------------------------------------------------------------------------ compute_features_3d
@@ -155,6 +305,7 @@ def _cf3d_cases():
             ensures=[
                 # C12: entry [i][j] is the analysis of signal [i, j] alone, with the options given for position [i][j]
                 "len(result) == %s" % N0,
+                "forall(i, 0 <= i < %s, len(result[i]) == %s)" % (N0, N1),
                 "forall((i, j), 0 <= i < %s and 0 <= j < %s, result[i][j] == CF(sigs[i][j], fs, f_range, return_samples, %s))"
                 % (N0, N1, opts),
             ],
@@ -162,7 +313,66 @@ def _cf3d_cases():
                        "len(dfs_features) == %s" % N0,
                        "forall((i, j), 0 <= i < p and 0 <= j < %s, dfs_features[i][j] == df_2d[i * %s + j])" % (N1, N1)]),
                    2: dict(index='q', mutates=['dfs_features'], invariant=inner_inv)}))
+    # ---- axis = 0 / 1 (C12): one epoched analysis per 2-D slice, at the position of the slice
+    N2 = "sigs.shape[2]"
+    for ax in (0, 1):
+        for kl, kt in (('None', 'none'), ('dict', 'optdict'), ('1d-list', ('grid', 1, False, 'list'))):
+            nslices = N0 if ax == 0 else N1
+            valid = "True" if kl != '1d-list' else "len(%s) == %s" % (KW, nslices)
+            if ax == 0:
+                opts = {'None': 'None', 'dict': KW, '1d-list': '%s[i]' % KW}[kl]
+                entry = "epoched(sigs[i], fs, f_range, %s, j)" % opts
+            else:
+                opts = {'None': 'None', 'dict': KW, '1d-list': '%s[j]' % KW}[kl]
+                entry = "epoched(sigs[:, j], fs, f_range, %s, i)" % opts
+            out.append(dict(
+                label='axis=%d,kw=%s' % (ax, kl),
+                params=dict(common, **{KW: kt, 'axis': ('const', ax)}),
+                requires=["n_jobs >= 1 or n_jobs == -1", "%s >= 1" % N2, "%s >= 1 and %s >= 1" % (N0, N1)],
+                raises={'ValueError': "not (%s)" % valid},
+                ensures=["len(result) == %s" % N0,
+                         "forall(i, 0 <= i < %s, len(result[i]) == %s)" % (N0, N1),
+                         "forall((i, j), 0 <= i < %s and 0 <= j < %s, result[i][j] == %s)" % (N0, N1, entry)]))
     return out
 
 
 contract('bycycle.group.features.compute_features_3d', cases=_cf3d_cases(), modifies=[], result=_res_grid2)
+
+
+# ------------------------------------------------------------------------------------------------ group-level views of callees
+def _epoch_abstract(E, ca, node):
+    """epoch_df on an opaque table: a list with one table per epoch, entry e a function of (table, epoch length, e) - which
+    is what the per-iteration contract of epoch_df establishes; the number of epochs is ceil(sig_len / epoch_len)"""
+    from vf.lib import term_int
+    df = ca.get(0, 'df_features')
+    sig_len = term_int(ca.get(1, 'sig_len'))
+    L = term_int(ca.get(2, 'epoch_len'))
+    if not E.spec_mode:
+        E.oblige('requires', L > 0, node, name=None, note='epoch_df: epoch_len > 0')
+    s = z3.simplify(sig_len)
+    cnt = None
+    if z3.is_mul(s) and s.num_args() == 2:
+        a, b = s.arg(0), s.arg(1)
+        if b.eq(z3.simplify(L)):
+            cnt = a
+        elif a.eq(z3.simplify(L)):
+            cnt = b
+    if cnt is None:
+        cnt = z3.Int(fresh_name('epochs'))
+        E.assume(z3.And(cnt >= 0, (cnt - 1) * L < sig_len, sig_len <= cnt * L))
+    dft = df.t
+    return G.grid(E, (cnt,), 1, (lambda e: _opq(G.EPOCH_FN(dft, L, e))), 'list')
+
+
+def _detector_abstract(fn):
+    def h(E, ca, node):
+        df = ca.pos[0]
+        if len(ca.pos) > 1 or ca.kw:
+            raise Unsupported('abstract burst detector with explicit thresholds')
+        return _opq(fn(df.t, kwargs_term(E, ca)))
+    return h
+
+
+CONTRACTS['bycycle.utils.dataframes.epoch_df']['abstract'] = _epoch_abstract
+CONTRACTS['bycycle.burst.cycle.detect_bursts_cycles']['abstract'] = _detector_abstract(G.DBC_FN)
+CONTRACTS['bycycle.burst.amp.detect_bursts_amp']['abstract'] = _detector_abstract(G.DBA_FN)
